@@ -62,9 +62,9 @@ def check(run, focus=FOCUS, modules=MODULES, suffix=SUFFIX):
     import regdyn
     stats["a64_rv_dynamic_registers"] = regdyn.sweep(run, focus, thorough)
     stats["register_obligations"] = enc.sweep_reg_translation(run, gen_reg, focus)
-    if focus == "C04":
-        import rvspecial
-        stats["riscv_special_operands"] = rvspecial.sweep(run, thorough)
+    # operands no generated theorem reaches (Zcmp lists and stack adjustments, Zfa, CSR numbers): independent reference; under C03 for the run-time spellings too
+    import rvspecial
+    stats["riscv_special_operands"] = rvspecial.sweep(run, thorough)
     run.coverage["evaluations"] = stats["literal"] + stats["runtime"]
     run.coverage["distinct_nontrivial"] = stats["literal_accepted"] + stats["runtime_accepted"]
     run.coverage["rule"] = ("every distinct immediate command group of the aarch64 table (one representative form each) x boundary values of the documented set, values just outside, "
